@@ -54,7 +54,7 @@ def units_rule(ctx, rule):
             why = "%s: %s receives %s where %s is required (%s vs %s): the position arithmetic is dimensionally wrong" % (
                 fn.path, desc, names.get(got, got), names.get(exp_s, exp_s), got, exp_s)
         rep.ob(rule, k, ok, why, fn.loc(line), how="unit %s" % got)
-    rep.floor(rule, n, 100, "position sinks")
+    rep.floor(rule, n, 60, "position sinks")
     return n
 
 
@@ -244,7 +244,7 @@ def c12(ctx):
                 ok, why = _line_provenance(F, fn, o, fname)
                 rep.ob("C12.R4", "provenance::%s::%s#%d" % (fn.path, fname, bi), ok,
                        "" if ok else "%s builds a LexResult whose %s %s" % (fn.path, fname, why), fn.loc(s["line"]), how="literal or '\\n'-guarded counter")
-    rep.floor("C12.R4", n4, 8, "LexResult constructions")
+    rep.floor("C12.R4", n4, 5, "LexResult constructions")
 
 
 def _line_provenance(F, fn, operand, fname):
